@@ -146,10 +146,16 @@ func TestVerif_C20(t *testing.T) {
 		}
 		events := make(chan string, 1<<16)
 		ctl := &controller{client: cl}
+		var notified int64
 		ctl.ips = allocator.New(func(name string) {
 			select {
 			case events <- name:
 			default:
+			}
+			// every third notification returns late (the notifying goroutine is descheduled after it woke
+			// the consumer): the consumer may fetch before the notifier goes on
+			if atomic.AddInt64(&notified, 1)%3 == 0 {
+				time.Sleep(30 * time.Microsecond)
 			}
 		})
 		var elog []c20Entry
